@@ -435,6 +435,20 @@ func (g *Gen) seqAt(ctx *specCtx, v Val, i string) string {
 	return ""
 }
 
+func (g *Gen) seqBlockOpt(ctx *specCtx, v Val) (blk, off, l string, ok bool) {
+	switch b := v.(type) {
+	case SliceV:
+		if len(g.leaves(b.Elem)) != 1 {
+			return "", "", "", false
+		}
+	case StrV:
+	default:
+		return "", "", "", false
+	}
+	blk, off, l = g.seqBlock(ctx, v)
+	return blk, off, l, true
+}
+
 // seqBlock returns (inner array term, offset, length) of a byte/int sequence.
 func (g *Gen) seqBlock(ctx *specCtx, v Val) (blk, off, l string) {
 	switch b := v.(type) {
@@ -529,7 +543,16 @@ func (g *Gen) evalCall(ctx *specCtx, x *ECall) Val {
 		g.nfresh++
 		j := fmt.Sprintf("j!q%d", g.nfresh)
 		rhs := g.seqAt(ctx, a, "(+ "+off+" (- "+j+" "+so+"))")
-		return BoolV{fmt.Sprintf("(forall ((%s Int)) (! (=> (and (<= %s %s) (< %s (+ %s %s))) (= (select %s %s) %s)) :pattern ((select %s %s))))", j, so, j, j, so, l, blk, j, rhs, blk, j)}
+		f1 := fmt.Sprintf("(forall ((%s Int)) (! (=> (and (<= %s %s) (< %s (+ %s %s))) (= (select %s %s) %s)) :pattern ((select %s %s))))", j, so, j, j, so, l, blk, j, rhs, blk, j)
+		// the same statement indexed from a's side, so that terms over a trigger it too
+		if ablk, ao, _, ok := g.seqBlockOpt(ctx, a); ok && ablk != blk {
+			g.nfresh++
+			k := fmt.Sprintf("k!q%d", g.nfresh)
+			base := "(+ " + ao + " " + off + ")"
+			f2 := fmt.Sprintf("(forall ((%s Int)) (! (=> (and (<= %s %s) (< %s (+ %s %s))) (= (select %s (+ %s (- %s %s))) (select %s %s))) :pattern ((select %s %s))))", k, base, k, k, base, l, blk, so, k, base, ablk, k, ablk, k)
+			return BoolV{"(and " + f1 + " " + f2 + ")"}
+		}
+		return BoolV{f1}
 	case "nochr":
 		s := arg(0)
 		c := g.evalInt(ctx, x.Args[1])
